@@ -110,6 +110,7 @@ func c17(args []string) error {
 	}
 	defer ev.Close()
 	n := 0
+	var want string // when set: the bytes the object produced on its first serialisation, into a buffer that has been overwritten since
 	record := func(t Tree, o geojson.Object, via string) {
 		j := o.JSON()
 		mj, _ := o.MarshalJSON()
@@ -129,6 +130,9 @@ func c17(args []string) error {
 				}
 			}
 		}
+		if want != "" && j != want {
+			appendok = false // the object kept a reference into the caller's buffer
+		}
 		e["appendok"], e["prefixok"] = appendok, prefixok
 		e["valid"] = json.Valid([]byte(j))
 		ast, terr := tokenizeSpecial(j)
@@ -140,9 +144,26 @@ func c17(args []string) error {
 		ev.Emit(e)
 		n++
 	}
+	// a fresh object whose FIRST serialisation goes into a caller-owned buffer with spare capacity that is then overwritten
+	recordFresh := func(t Tree, o geojson.Object, via string) {
+		buf := make([]byte, 3, 1<<16)
+		copy(buf, "abc")
+		res := o.AppendJSON(buf)
+		want = string(res[3:])
+		full := res[:cap(res)]
+		for i := range full {
+			full[i] = 'X'
+		}
+		record(t, o, via+"/first output went into a buffer that was overwritten afterwards")
+		want = ""
+	}
 	for _, t := range trees {
 		for ci := range indexConfigs[:2] {
 			record(t, t.Build(SpecialMap, &indexConfigs[ci]), fmt.Sprintf("constructors/index%d", ci))
+		}
+		recordFresh(t, t.Build(SpecialMap, &indexConfigs[0]), "constructors/index0")
+		if t.Kind != "Feature" {
+			recordFresh(Tree{Kind: "Feature", Kids: []Tree{t}}, geojson.NewFeature(t.Build(SpecialMap, &indexConfigs[0]), `{"id":"f","properties":{"a":[1,2]}}`), "NewFeature")
 		}
 		// every member text on a Feature around this object
 		inner := t
